@@ -43,7 +43,7 @@ def check_case(case):
                 res.v(("C04.maxiter",) + sig, "maxiter=%d: %s" % (mi, det))
             if sub.viol:
                 break
-    if obs is not None and fam == "phase" and spec.get("phases") and (len(spec["comps"]) <= 3 or case["pc"] == ["zz"] or len(case["f"]) == 1):
+    if obs is not None and fam == "phase" and spec.get("phases") and case["pc"] in (["a"], ["zz"]) and (len(spec["comps"]) <= 3 or len(case["f"]) == 1):
         # the same system with a rail on every non-load component: a dead rail must be reported at 0 V in exactly the phases in which it is dead
         import copy
         from ..sysmodel import LOADS, build, g
